@@ -235,49 +235,29 @@ theorem R.setLineCol {s a} (h : R s a) (l c : Nat) :
   destruct_R h
   constructor <;> simp_all <;> assumption
 
+theorem runePre_refines {s a} (h : R s a) : R s.runePre a.runePre := by
+  unfold St.runePre LSt.runePre
+  have hr := h.f_r
+  have hw := h.f_w
+  have hl := h.f_line
+  have hc := h.f_col
+  rw [hr]
+  split
+  · have := h.setLineCol (s.line + 1) (0 + s.w)
+    simpa [hw, hl, hc, hr] using this
+  · have := h.setLineCol s.line (s.col + s.w)
+    simpa [hw, hl, hc, hr] using this
+
 /-- **`rune` of the chunked byte source refines `rune` of the unchunked one.** -/
 theorem rune_refines {s a} (h : R s a) (hok : a.rune.2.ok = true) :
     ∃ s', s.rune = .ok (a.rune.1, s') ∧ R s' a.rune.2 := by
   unfold LSt.rune at hok ⊢
   unfold St.rune
   simp only at hok ⊢
-  have hr := h.f_r
-  have hw := h.f_w
-  have hl := h.f_line
-  have hc := h.f_col
-  -- the line/column bookkeeping before the loop
-  have hR0 : R ({ (if (s.r == 10 || s.r == escNewl) = true then { s with line := s.line + 1, col := 0 } else s) with
-        col := (if (s.r == 10 || s.r == escNewl) = true then { s with line := s.line + 1, col := 0 } else s).col
-          + (if (s.r == 10 || s.r == escNewl) = true then { s with line := s.line + 1, col := 0 } else s).w })
-      ({ (if (a.r == 10 || a.r == escNewl) = true then { a with line := a.line + 1, col := 0 } else a) with
-        col := (if (a.r == 10 || a.r == escNewl) = true then { a with line := a.line + 1, col := 0 } else a).col
-          + (if (a.r == 10 || a.r == escNewl) = true then { a with line := a.line + 1, col := 0 } else a).w }) := by
-    rw [hr]
-    split
-    · have := h.setLineCol (s.line + 1) (0 + s.w)
-      simpa [hw, hl, hc, hr] using this
-    · have := h.setLineCol s.line (s.col + s.w)
-      simpa [hw, hl, hc, hr] using this
-  have e1 : (if (a.r == 10 || a.r == escNewl) = true then { a with line := a.line + 1, col := 0 } else a).rest = a.rest := by
-    split <;> rfl
-  have e2 : (if (s.r == 10 || s.r == escNewl) = true then { s with line := s.line + 1, col := 0 } else s).total = s.total := by
-    split <;> rfl
-  simp only [e1, e2] at hok ⊢
-  have ha0 : ({ (if (a.r == 10 || a.r == escNewl) = true then { a with line := a.line + 1, col := 0 } else a) with
-        col := (if (a.r == 10 || a.r == escNewl) = true then { a with line := a.line + 1, col := 0 } else a).col
-          + (if (a.r == 10 || a.r == escNewl) = true then { a with line := a.line + 1, col := 0 } else a).w } : LSt).rest = a.rest := e1
-  have hs0 : ({ (if (s.r == 10 || s.r == escNewl) = true then { s with line := s.line + 1, col := 0 } else s) with
-        col := (if (s.r == 10 || s.r == escNewl) = true then { s with line := s.line + 1, col := 0 } else s).col
-          + (if (s.r == 10 || s.r == escNewl) = true then { s with line := s.line + 1, col := 0 } else s).w } : St).total = s.total := e2
-  generalize ({ (if (s.r == 10 || s.r == escNewl) = true then { s with line := s.line + 1, col := 0 } else s) with
-        col := (if (s.r == 10 || s.r == escNewl) = true then { s with line := s.line + 1, col := 0 } else s).col
-          + (if (s.r == 10 || s.r == escNewl) = true then { s with line := s.line + 1, col := 0 } else s).w } : St) = s0
-    at hR0 hs0 ⊢
-  generalize ({ (if (a.r == 10 || a.r == escNewl) = true then { a with line := a.line + 1, col := 0 } else a) with
-        col := (if (a.r == 10 || a.r == escNewl) = true then { a with line := a.line + 1, col := 0 } else a).col
-          + (if (a.r == 10 || a.r == escNewl) = true then { a with line := a.line + 1, col := 0 } else a).w } : LSt) = a0
-    at hR0 hok ha0 ⊢
-  obtain ⟨s', h1, h2⟩ := runeLoop_refines (s.total + 2) (a.rest.length + 2) 0 hR0
+  have hR0 := runePre_refines h
+  generalize s.runePre = s0 at hR0 ⊢
+  generalize a.runePre = a0 at hR0 hok ⊢
+  obtain ⟨s', h1, h2⟩ := runeLoop_refines (s0.total + 2) (a0.rest.length + 2) 0 hR0
     (by have := hR0.rest_le; omega) (by omega) hok
   refine ⟨s', ?_, h2⟩
   simp only [h1, bind_ok, pure_eq_ok]
